@@ -339,6 +339,11 @@ func (dec *xmlDecoder) decodeXML(root *xmlNode) error {
 		started = true
 	}
 
+	if elem != nil && elem.parent != nil {
+		// RawToken does not check that elements are closed: input that ends inside an element was cut short
+		return fmt.Errorf("invalid XML: unexpected end of input, element <%v> is not closed", elem.label)
+	}
+
 	return nil
 }
 
